@@ -546,8 +546,8 @@ func (x *TopicsIndex) scanMessages(filter string, d int, n *particle, pks []pack
 	key, hasNext := isolateParticle(filter, d)
 	if key == "+" || key == "#" || d == -1 {
 		for _, adjacent := range n.particles.getAll() {
-			if d == 0 && adjacent.key == SysPrefix {
-				continue
+			if d == 0 && strings.HasPrefix(adjacent.key, "$") {
+				continue // don't match $ topics with top level wildcards [MQTT-4.7.1-1] [MQTT-4.7.1-2]
 			}
 
 			if !hasNext {
@@ -606,13 +606,13 @@ func (x *TopicsIndex) scanSubscribers(topic string, d int, n *particle, subs *Su
 				x.scanSubscribers(topic, d+1, particle, subs)
 			} else {
 				x.gatherSubscriptions(topic, particle, subs)
-				x.gatherSharedSubscriptions(particle, subs)
-				x.gatherInlineSubscriptions(particle, subs)
+				x.gatherSharedSubscriptions(topic, particle, subs)
+				x.gatherInlineSubscriptions(topic, particle, subs)
 
 				if wild := particle.particles.get("#"); wild != nil {
 					x.gatherSubscriptions(topic, wild, subs) // also match any subs where filter/# is filter as per 4.7.1.2
-					x.gatherSharedSubscriptions(wild, subs)
-					x.gatherInlineSubscriptions(wild, subs)
+					x.gatherSharedSubscriptions(topic, wild, subs)
+					x.gatherInlineSubscriptions(topic, wild, subs)
 				}
 			}
 		}
@@ -620,8 +620,8 @@ func (x *TopicsIndex) scanSubscribers(topic string, d int, n *particle, subs *Su
 
 	if particle := n.particles.get("#"); particle != nil {
 		x.gatherSubscriptions(topic, particle, subs)
-		x.gatherSharedSubscriptions(particle, subs)
-		x.gatherInlineSubscriptions(particle, subs)
+		x.gatherSharedSubscriptions(topic, particle, subs)
+		x.gatherInlineSubscriptions(topic, particle, subs)
 	}
 
 	return subs
@@ -634,7 +634,7 @@ func (x *TopicsIndex) gatherSubscriptions(topic string, particle *particle, subs
 	}
 
 	for client, sub := range particle.subscriptions.GetAll() {
-		if len(sub.Filter) > 0 && topic[0] == '$' && (sub.Filter[0] == '+' || sub.Filter[0] == '#') { // don't match $ topics with top level wildcards [MQTT-4.7.1-1] [MQTT-4.7.1-2]
+		if isWildcardOnSysTopic(topic, sub.Filter) {
 			continue
 		}
 
@@ -648,13 +648,17 @@ func (x *TopicsIndex) gatherSubscriptions(topic string, particle *particle, subs
 }
 
 // gatherSharedSubscriptions gathers all shared subscriptions for a particle.
-func (x *TopicsIndex) gatherSharedSubscriptions(particle *particle, subs *Subscribers) {
+func (x *TopicsIndex) gatherSharedSubscriptions(topic string, particle *particle, subs *Subscribers) {
 	if subs.Shared == nil {
 		subs.Shared = map[string]map[string]packets.Subscription{}
 	}
 
 	for _, shares := range particle.shared.GetAll() {
 		for client, sub := range shares {
+			if parts := strings.SplitN(sub.Filter, "/", 3); len(parts) == 3 && isWildcardOnSysTopic(topic, parts[2]) {
+				continue
+			}
+
 			if _, ok := subs.Shared[sub.Filter]; !ok {
 				subs.Shared[sub.Filter] = map[string]packets.Subscription{}
 			}
@@ -665,14 +669,24 @@ func (x *TopicsIndex) gatherSharedSubscriptions(particle *particle, subs *Subscr
 }
 
 // gatherSharedSubscriptions gathers all inline subscriptions for a particle.
-func (x *TopicsIndex) gatherInlineSubscriptions(particle *particle, subs *Subscribers) {
+func (x *TopicsIndex) gatherInlineSubscriptions(topic string, particle *particle, subs *Subscribers) {
 	if subs.InlineSubscriptions == nil {
 		subs.InlineSubscriptions = map[int]InlineSubscription{}
 	}
 
 	for id, inline := range particle.inlineSubscriptions.GetAll() {
+		if isWildcardOnSysTopic(topic, inline.Filter) {
+			continue
+		}
+
 		subs.InlineSubscriptions[id] = inline
 	}
+}
+
+// isWildcardOnSysTopic returns true if the topic begins with $ and the filter begins with
+// a wildcard, in which case the filter must not match the topic [MQTT-4.7.1-1] [MQTT-4.7.1-2].
+func isWildcardOnSysTopic(topic, filter string) bool {
+	return len(filter) > 0 && len(topic) > 0 && topic[0] == '$' && (filter[0] == '+' || filter[0] == '#')
 }
 
 // isolateParticle extracts a particle between d / and d+1 / without allocations.
